@@ -471,6 +471,10 @@ func genE1(r *Run, prop string) (*e1World, *e1Config) {
 				}
 				if d.kind == kJoin {
 					d.src = 1 + r.Choose("join-src", cfg.nlogs-1)
+					if r.Choose("join-reverse", 3) == 0 {
+						// the other way round: a source merges from the shared log (while the shared log merges from it)
+						d.target, d.src = d.src, 0
+					}
 				}
 			} else {
 				x := r.Choose("kind14", 27)
